@@ -1669,7 +1669,72 @@ fn mutate(rng: &mut Rng, src: &str) -> String {
     cs.into_iter().collect()
 }
 
+
+// ---------------------------------------------------------------------------------------------
+// character-class boundaries: non-ASCII look-alikes of every ASCII class the lexer tests
+// (digit, name character, blank / newline, operator, quote) right after each trigger, in every
+// quoting context
+
+/// Unicode decimal digits and other numerics (`char::is_numeric`, not `is_ascii_digit`)
+const U_DIGITS: &[char] = &['５', '０', '９', '٣', '٠', '९', '²', '³', '½', '¼', 'Ⅷ', '①', '〇', '\u{1D7D7}', '৪', '៣'];
+/// letters outside ASCII (`is_alphabetic` / `is_alphanumeric`, not a portable name character)
+const U_LETTERS: &[char] = &['é', 'λ', '日', 'ß', 'ǅ', 'ª', 'Ω', 'а', 'ｘ', 'Ａ', 'İ', '＿'];
+/// white space outside ASCII and invisible characters
+const U_BLANKS: &[char] = &['\u{a0}', '\u{3000}', '\u{2028}', '\u{2029}', '\u{85}', '\u{1680}', '\u{2003}', '\u{202f}', '\u{205f}', '\u{200b}', '\u{feff}', '\u{b}', '\u{c}', '\r'];
+/// full-width and typographic look-alikes of operators, quotes and expansion characters
+const U_OPS: &[char] = &['；', '＆', '｜', '（', '）', '＜', '＞', '＄', '｛', '｝', '＃', '～', '＝', '‘', '’', '“', '”', '＼', '｀', '－', '！', '＊', '？', '＠'];
+
+const TRIGGERS: &[&str] = &[
+    "$", "${", "${#", "${x", "${x:-", "${x:", "${x#", "${x%%", "${1", "$((", "$(( 1+", "$(", "$1", "$x", "<<", "<<-", "<<<", "2", "10", "2>", ">", ">>", "<&", ">&", ">|", "#", "~", "~a", "=", "a=",
+    "a", "\\", "$'", "$'\\u", "$'\\x", "$'\\c", "$'\\", "$'\\0", "`", "!", "! ", "{", "{ ", "}", "(", "for ", "case ", "function ", "f", "in ", ";;", "|", "&&", "&", ";", "-", ":", "'", "\"", "",
+];
+
+const TAILS: &[&str] = &["", "", "}", "))", ")", "'", "\"", "`", " x", "x", "1", "<f", ">f", "\n", " in x) ;; esac", "() { :; }", "; do :; done", "=1", " ", "}}", "-x}", "#"];
+
+/// quoting / syntactic contexts; `@` is replaced by the probe text
+const CONTEXTS: &[&str] = &[
+    "@", "echo @", "echo a@", "\"@\"", "\"a@b\"", "cat <<EOF\n@\nEOF\n", "cat <<-EOF\n\t@\n\tEOF\n", "cat <<'EOF'\n@\nEOF\n", "$((@))", "echo $(( 1 + @ ))", "${x:-@}", "\"${x:-@}\"",
+    "${x#@}", "$(@)", "\"$(echo @)\"", "`@`", "case @ in @) ;; esac", "case x in (@) echo @;; esac", "for @ in a; do :; done", "for i in @; do :; done", "@() { :; }", "@=1", "x=@", "x=(@)",
+    "export a=@", ">@", "@>f", "@<f", "echo @>f", "echo a #@", "'@'", "$'@'", "[ @ ]", "! @", "{ @; }", "(@)", "if @; then @; fi", "a | @", "a && @", "@ &", "a;@",
+];
+
+fn probe(trigger: &str, chars: &[char], tail: &str, ctx: &str) -> String {
+    let mut p = String::from(trigger);
+    p.extend(chars.iter());
+    p.push_str(tail);
+    ctx.replace('@', &p)
+}
+
+fn all_unicode() -> Vec<char> {
+    U_DIGITS.iter().chain(U_LETTERS).chain(U_BLANKS).chain(U_OPS).copied().collect()
+}
+
+/// random probe: one to three look-alike characters (sometimes mixed with ASCII) after a trigger
+fn random_probe(rng: &mut Rng) -> String {
+    let all = all_unicode();
+    let mut chars = vec![];
+    for _ in 0..1 + rng.below(3) {
+        if rng.chance(1, 5) {
+            chars.push(*rng.pick(&['a', '1', '0', '_', ' ', '-', '}', '{', '$', '\\', '\n']));
+        } else {
+            chars.push(all[rng.below(all.len())]);
+        }
+    }
+    let t = TRIGGERS[rng.below(TRIGGERS.len())];
+    let tail = TAILS[rng.below(TAILS.len())];
+    let ctx = CONTEXTS[rng.below(CONTEXTS.len())];
+    let s = probe(t, &chars, tail, ctx);
+    if rng.chance(1, 4) {
+        // nest once more
+        let ctx2 = CONTEXTS[rng.below(CONTEXTS.len())];
+        ctx2.replace('@', &s)
+    } else {
+        s
+    }
+}
+
 const SOUP: &[&str] = &[
+    "５", "٣", "²", "½", "Ⅷ", "ｘ", "＜", "＞", "＄", "｛", "；", "\u{2029}", "\u{1680}", "$５", "${５", "$((５", "2５>", "$é", "${é}", "é=1",
     " ", " ", "\n", "\t", ";", "&", "|", "(", ")", "<", ">", "{", "}", "$", "`", "\\", "'", "\"", "#", "~", "=", "!", "-", "*", "?", "[", "]", ":", "+", "%", "@", "0", "1", "2", "7", "a", "b", "c", "x", "u", "U", "n", "e", "E", "if", "then", "fi", "for", "in", "do", "done", "case", "esac", "while", "until", "elif", "else", "function", "[[", "]]", "select", "namespace", "$(", "${", "$((", "))", "$'", "<<", "<<-", "<<<", ">>", ">|", ">>|", "<&", ">&", "<>", "<(", ">(", ";;", ";&", ";|", ";;&", "&&", "||", "()", "\\\n", "\\c", "\\x", "\\u", "\\U", "\\0", "\\777", "EOF", "\u{a0}", "\u{2028}", "\u{3000}", "\u{85}", "\0", "\u{7f}", "\u{1b}", "é", "日", "😀", "\u{301}", "\u{feff}", "\u{10ffff}", "\r",
 ];
 
@@ -1855,6 +1920,30 @@ fn main() {
             1 if k % 50 == 1 => nesting(&mut srng, o.thorough()),
             _ => soup(&mut srng),
         };
+        if mine(&mut idx) {
+            run_raw(&mut r, &s, true);
+        }
+    }
+
+    // 4. character-class boundaries: every trigger x representative look-alike x context (quick: one
+    //    character per class and an empty tail; thorough: every character), then random probes
+    let reps: Vec<char> = if o.thorough() { all_unicode() } else { vec!['５', '²', '٣', 'é', 'ｘ', '\u{a0}', '\u{3000}', '\u{2028}', '＜', '＄'] };
+    for t in TRIGGERS {
+        for c in &reps {
+            for (ci, ctx) in CONTEXTS.iter().enumerate() {
+                if !mine(&mut idx) {
+                    continue;
+                }
+                let tail = if o.thorough() { TAILS[(ci + (*c as usize)) % TAILS.len()] } else { "" };
+                let s = probe(t, &[*c], tail, ctx);
+                run_raw(&mut r, &s, true);
+            }
+        }
+    }
+    let n_probe = if o.thorough() { 120_000 } else { 3_000 };
+    let mut prng = Rng::new(o.seed ^ 0xC06_0C1A55);
+    for _ in 0..n_probe {
+        let s = random_probe(&mut prng);
         if mine(&mut idx) {
             run_raw(&mut r, &s, true);
         }
